@@ -157,7 +157,8 @@ let encode_op (s : script) (o : aopts) (op : string list) : string list =
     (match awrite_request (n_of_int (cfg_int s "cap" 2048)) (ni seq) (ni fc) headers with
      | AOk bytes -> sp "bytes %s" (hex bytes) :: parse_and_list o "req" bytes
      | AErr WEOverflow -> ["encode-err write-overflow"; "end"]
-     | AErr WEBadSeek -> ["encode-err bad-seek"; "end"])
+     | AErr WEBadSeek -> ["encode-err bad-seek"; "end"]
+     | AErr WENumeric -> ["encode-err numeric-overflow"; "end"])
   | _ -> failwith "bad encode op"
 
 let run_app_engine (s : script) : string list =
